@@ -86,6 +86,12 @@ def main():
     finally:
         sh('git -C /repo worktree remove --force %s' % wt)
         shutil.rmtree('/var/tmp/mutv', ignore_errors=True)
+    if '--no-checks' in sys.argv:
+        # validation only (nothing outside the scratch worktree is touched)
+        res['checks'] = {}
+        json.dump(res, open(os.path.join(src, 'seedtest.json'), 'w'), indent=1)
+        print(json.dumps({k: v for k, v in res.items() if k != 'rebased_patch'}, indent=1))
+        return 0
     # run the checks on /repo with the patch applied
     tmp = '/var/tmp/seed_rebased.diff'
     open(tmp, 'w').write(res['rebased_patch'])
